@@ -1351,6 +1351,16 @@ func (v *v40) inflight(op *op40, req []byte) *pending {
 	if op.o.confirmed && v.rng.IntN(2) == 0 {
 		nd--
 		fop := &op40{kind: kOpenNoent, o: op.o, fname: "missing", access: nfsv4.OPEN4_SHARE_ACCESS_READ, seq: v.nx(op.seq), want: nfsv4.NFS4ERR_NOENT}
+		// Two times out of three, if the owner has another file open, the
+		// next request is a CLOSE of that file instead: it finds the owner
+		// through its state ID (not through the owner name as OPEN does)
+		// and has to wait for the OPEN there.
+		for _, n := range sortedKeys(op.o.files) {
+			if of := op.o.files[n]; n != op.fname && v.rng.IntN(3) != 0 {
+				fop = &op40{kind: kClose, o: op.o, of: of, fname: of.fname, fh: of.fh, seq: v.nx(op.seq), stateid: of.stateid, want: nfsv4.NFS4_OK}
+				break
+			}
+		}
 		v.follower = &follower40{op: fop, req: v.build(fop)}
 	}
 	dups := make([]*pending, nd)
@@ -1373,6 +1383,9 @@ func (v *v40) inflight(op *op40, req []byte) *pending {
 		}
 		if v.follower != nil {
 			v.sit("inflight-next-request-behind-open-40")
+			if v.follower.op.kind == kClose {
+				v.sit("inflight-next-request-by-stateid-behind-open-40")
+			}
 		}
 	}
 	if v.rng.IntN(2) == 0 {
